@@ -50,6 +50,20 @@ class C10(Prop):
             rule = rng.choice(V.RULES); k = rng.randint(1, m + 1)
             yield self.mk("random", rule, rng.choice(["score", "scf", "swf"]), P, k, rng.random() < .5, tb=rng.choice(V.TBS),
                           dtype=rng.choice(["int64", "int32", "float"]))
+        # large electorates decided by one vote (ballots with multiplicities), with a differently sized profile fed to the same rule object first
+        for i in range(40 if tier == "quick" else 400):
+            m = rng.randint(2, 4); base = rng.choice([1000, 70000, 150000, 300000])
+            ballots = [rng.sample(range(1, m + 1), m) for _ in range(rng.randint(2, 4))]
+            mults = [base + rng.choice([0, 1, 1, 2]) for _ in ballots]
+            rule = V.RULES[i % 5]
+            yield dict(entry="%s.%s" % (rule, ["scf", "swf"][i % 2]), family="big", rule=rule, method=["scf", "swf"][i % 2], P=ballots, mults=mults, shuffle_seed=i,
+                       k=rng.randint(1, m), zi=bool(i % 2), tb=V.TBS[i % 3], dtype=rng.choice(["int64", "int32"]),
+                       prelude=[dict(P=V.rand_profile(rng, 3, m + 1), mults=[1, 1, 1])])
+        for i in range(40 if tier == "quick" else 400):
+            n = rng.randint(1, 4); m = rng.randint(2, 5)
+            big = rng.choice([1.0, 1e3, 5e5])
+            Vp = [[big * rng.randint(1, 5) + rng.choice([0, 0, 1e-6 * big, -1e-6 * big, 1.0]) for _ in range(m)] for _ in range(n)]
+            yield dict(entry="SocialWelfare.scf", family="util_near", rule="SocialWelfare", method="scf", V=Vp, zi=bool(i % 2), tb=V.TBS[i % 3], k=1)
         N = 150 if tier == "quick" else 3000
         for i in range(N):
             n = rng.randint(1, 8); m = rng.randint(1, 7)
@@ -84,8 +98,8 @@ class C10(Prop):
         fix = 0 if case["zi"] else 1
         sc = obs["out"] if case["method"] == "score" else obs["score"]
         if "P" in case:
-            P = case["P"]; m = len(P[0])
-            want = [sum(textbook(case["rule"], m, case["k"], row[j]) for row in P) for j in range(m)]
+            P = case["P"]; m = len(P[0]); mu = case.get("mults", [1] * len(P))
+            want = [sum(textbook(case["rule"], m, case["k"], row[j]) * w for row, w in zip(P, mu)) for j in range(m)]
         else:
             Vp = case["V"]; m = len(Vp[0])
             cols = [sum(Fraction(x) for x in (row[j] for row in Vp) if x is not None) for j in range(m)]
@@ -127,6 +141,7 @@ class C10(Prop):
         if case["method"] == "score":
             if "V" in case:
                 return ("util", ct(V.cV(case["V"]), V.cQl(obs["out"])))
+            if "mults" in case: return None
             return ("score", ct(cn(V.RULES.index(case["rule"])), cz(case["k"]), V.cP(case["P"]), V.cQl(obs["out"])))
         sc = obs["score"]
         if case["method"] == "scf":
